@@ -66,6 +66,28 @@ Theorem C16_cancel_stops : forall a p evs1 evs2,
 Proof. exact cancel_stops. Qed.
 Print Assumptions C16_cancel_stops.
 
+(* a generator that returned without having been cancelled has emitted every host, whatever the
+   consumer's pace (any interleaving of consumer-ready / return events) *)
+Theorem C16_uncancelled_complete : forall sel a p evs,
+  let g := grun sel (gen_init a p) evs in
+  finished g = true -> cancelled g = false -> sent g = ip_gen a p.
+Proof. exact uncancelled_complete. Qed.
+Print Assumptions C16_uncancelled_complete.
+(* several configured subnets: the estimate logged by autoDiscover (sum of computeNetSz) is the
+   number of addresses enumerated, and every address is enumerated once per configured subnet it
+   is a host of - never otherwise *)
+Theorem C16_estimate_all : forall nets, Forall net_ok nets ->
+  N.of_nat (length (discover_all nets)) = estimate nets.
+Proof. exact estimate_all. Qed.
+Print Assumptions C16_estimate_all.
+Theorem C16_discover_all_count : forall nets x, Forall net_ok nets ->
+  count_occ N.eq_dec (discover_all nets) x = length (filter (is_host x) nets).
+Proof. exact discover_all_count. Qed.
+Print Assumptions C16_discover_all_count.
+Example C16_example_two_nets :
+  discover_all [(2130706433, 30); (2130706689, 31)] = [2130706433; 2130706434; 2130706688]
+  /\ estimate [(2130706433, 30); (2130706689, 31)] = 3.
+Proof. vm_compute. split; reflexivity. Qed.
 (* non-vacuity: a concrete unaligned address in a /29 *)
 Example C16_example : ip_gen 3232235886 29 =
   [3232235881; 3232235882; 3232235883; 3232235884; 3232235885; 3232235886].
